@@ -1097,7 +1097,11 @@ func compareLogicXEQ(left r.Element, right r.Element) (bool, error) {
 			if len(vla) != len(vra) {
 				return false, nil
 			}
-			// cmp each item (by the order of keys to yield a stable result)
+			// cmp each item. Whether two dictionaries are equal depends on their entries, not
+			// on the order the entries were inserted in: an entry that differs decides (假)
+			// wherever it stands; an entry that cannot be compared is an error only when no
+			// other entry differs
+			var cmpErr error
 			for _, idx := range vl.GetKeyOrder() {
 				// ensure the key exists on vr
 				vrr, ok := vra[idx]
@@ -1106,12 +1110,17 @@ func compareLogicXEQ(left r.Element, right r.Element) (bool, error) {
 				}
 				cmpVal, err := compareLogicXEQ(vla[idx], vrr)
 				if err != nil {
-					return false, err
+					if cmpErr == nil {
+						cmpErr = err
+					}
+					continue
 				}
-				// break the loop only when cmpVal = false
 				if !cmpVal {
 					return false, nil
 				}
+			}
+			if cmpErr != nil {
+				return false, cmpErr
 			}
 			return true, nil
 		}
